@@ -11,6 +11,7 @@ import (
 	"errors"
 	"fmt"
 	"sort"
+	"strings"
 	"testing"
 )
 
@@ -495,7 +496,10 @@ func TestWitnessTwoSourceOperators(t *testing.T) {
 	}
 	ops := []op{
 		{"Zip2", func(a, b Observable[int]) Observable[string] {
-			return Map(func(v interface{ Unpack() (int, int) }) string { x, y := v.Unpack(); return fmt.Sprintf("(%d,%d)", x, y) })(
+			return Map(func(v interface{ Unpack() (int, int) }) string {
+				x, y := v.Unpack()
+				return fmt.Sprintf("(%d,%d)", x, y)
+			})(
 				Map(func(v any) interface{ Unpack() (int, int) } { return v.(interface{ Unpack() (int, int) }) })(ow2Any(Zip2(a, b))))
 		}, func(sc []ow2Ev) []string {
 			var qa, qb []int
@@ -536,8 +540,17 @@ func TestWitnessTwoSourceOperators(t *testing.T) {
 		{"ZipAll", func(a, b Observable[int]) Observable[string] {
 			return Map(func(v []int) string { return fmt.Sprintf("(%d,%d)", v[0], v[1]) })(ZipAll[int]()(Of(a, b)))
 		}, nil},
+		{"ZipVariadicTake1", func(a, b Observable[int]) Observable[string] {
+			return Map(func(v []int) string { return fmt.Sprintf("(%d,%d)", v[0], v[1]) })(Take[[]int](1)(Zip(a, b)))
+		}, nil},
+		{"ZipAllTake1", func(a, b Observable[int]) Observable[string] {
+			return Map(func(v []int) string { return fmt.Sprintf("(%d,%d)", v[0], v[1]) })(Take[[]int](1)(ZipAll[int]()(Of(a, b))))
+		}, nil},
 		{"CombineLatest2", func(a, b Observable[int]) Observable[string] {
-			return Map(func(v interface{ Unpack() (int, int) }) string { x, y := v.Unpack(); return fmt.Sprintf("(%d,%d)", x, y) })(
+			return Map(func(v interface{ Unpack() (int, int) }) string {
+				x, y := v.Unpack()
+				return fmt.Sprintf("(%d,%d)", x, y)
+			})(
 				Map(func(v any) interface{ Unpack() (int, int) } { return v.(interface{ Unpack() (int, int) }) })(ow2Any(CombineLatest2(a, b))))
 		}, func(sc []ow2Ev) []string {
 			hasA, hasB := false, false
@@ -624,9 +637,22 @@ func TestWitnessTwoSourceOperators(t *testing.T) {
 	OnUnhandledError = IgnoreOnUnhandledError
 	defer func() { OnUnhandledError = prev }()
 	scripts := ow2Scripts(5)
+	zipRef := ops[0].ref
 	for i := range ops {
 		if ops[i].ref == nil {
-			ops[i].ref = ops[0].ref // the variadic forms of Zip have the definition of Zip2
+			ops[i].ref = zipRef // the variadic forms of Zip have the definition of Zip2
+			if strings.HasSuffix(ops[i].name, "Take1") {
+				// ... cut after the first tuple: the downstream ends from inside its Next
+				ops[i].ref = func(sc []ow2Ev) []string {
+					full := zipRef(sc)
+					for j, e := range full {
+						if strings.HasPrefix(e, "N") {
+							return append(append([]string{}, full[:j+1]...), "C")
+						}
+					}
+					return full
+				}
+			}
 		}
 	}
 	for _, o := range ops {
